@@ -39,6 +39,7 @@ class Store:
         self.groups: dict = {}   # group key -> {"mpriv", "old", "okpaths", "cases": {log key: json string}}
 
     def add(self, rec: dict):
+        rec["old"]["site"] = rec["new"]["site"] = rec["site"]      # constant of the behaviour, kept with the versions
         gk = json.dumps([rec["mpriv"], rec["old"]], sort_keys=True)
         g = self.groups.get(gk)
         if g is None:
@@ -215,6 +216,7 @@ def confirm_defect(run: Run, griffe, res, inv: str, what: str):
     if not res.trace:
         die(f"C11: {inv} violated without counterexample dump")
     st = res.trace[-1]
+    st["old"]["site"] = st["new"]["site"] = st["site"]
     case = {"mpriv": st["mpriv"], "old": st["old"], "new": st["new"], "log": st["log"], "out": st["report"]["out"], "aborted": st["report"]["aborted"]}
     with scratch("c11-") as d:
         old_pkg = L.load_version(griffe, os.path.join(d, "o"), case["old"], case["mpriv"])
